@@ -3,11 +3,14 @@
 Require Import XRead XReadSpec XReadProofs XReadSpecProofs.
 From Coq Require Import List Arith Bool.
 Import ListNotations.
+(* [XRead.scan wl ...]: wl = false is the default mode these theorems are about (except the first, which holds for both);
+   wl = true is the whole-line reader of -I (C20) *)
+Local Notation ws_read := (XRead.ws_read false).
 
 (* The argument sequence and the line-end flags depend only on the bytes, for every cutting
    of the stream into read() results and every state of the carried-over buffer. *)
-Theorem C05_chunk_independent : forall fuel pending chunks,
-  read_all fuel pending chunks = flat_all fuel (pending ++ concat chunks).
+Theorem C05_chunk_independent : forall wl fuel pending chunks,
+  read_all wl fuel pending chunks = flat_all wl fuel (pending ++ concat chunks).
 Proof. exact chunk_independent. Qed.
 Print Assumptions C05_chunk_independent.
 
